@@ -28,7 +28,8 @@ EXPLANATION = (
     'recursive descent, every make-move in negaScout / quiesce / the root loop is followed by a decrement of the poll counter, the poll '
     'interval is at most 1000 nodes, and shouldStop returns true exactly on elapsed >= the limit selected by searchNeedMoreTime.'
     ' The limit shouldStop compares the elapsed time with is, on every path, bounded by the hard limit (hard, soft, or min(.., hard)).'
-    ' Added later; (4) on every go path the option queue is drained (stopThread -> waitStop -> waitOptionsSet) before the protocol thread reads option values in computeTimeLimit / startThread.')
+    ' Added later; (4) on every go path the option queue is drained (stopThread -> waitStop -> waitOptionsSet) before the protocol thread reads option values in computeTimeLimit / startThread.'
+    ' Added later; (5) Communicator::sendInitSearch must-writes the node / tbhit accumulators and every search passes it.')
 UNDECIDED = ('wall-clock latency and the virtual-clock bound "within one polling interval" (timing is not a static quantity); the '
              'behaviour of the search between two polls.')
 ASSUMPTIONS = ['input domain of the property: wtime/btime 1..10^7 ms, inc 0..10^5, movestogo 0..100, BufferTime and the time-usage parameters inside their declared Param<> ranges',
@@ -52,6 +53,11 @@ def run(fb, rep, tier):
     c2_order(fb, rep)
     c3_polling(fb, rep)
     c4_options_before_limits(fb, rep)
+    # .5 the node count the NPS throttle sleeps on (own nodes + what the helpers reported) starts at zero in every search:
+    # a stale helper count makes the throttle sleep for (stale nodes / MaxNPS) seconds in one piece, past every limit
+    # and deaf to stop (shared with C14.2)
+    from . import C14
+    C14.accumulators_reset(fb, rep, 'C06.5')
 
 
 def _strip(t):
